@@ -172,6 +172,11 @@ def out_event_rules(ctx):
 
 def run(ctx: Ctx):
     ctx.level = 'other'
+    ctx.bounded = getattr(ctx, 'bounded', []) + [{
+        'function': 'dznpy.json_ast.DznJsonAst.process (corpus part)',
+        'bound': 'single-point malformations of the corpus documents (quick: 2 documents, thorough: all 5); replacement '
+                 'contents symbolic',
+        'result': 'obligations <document>:mut*; the any-JSON contracts (any-json.* obligations) carry no such bound'}]
     ctx.level_explanation = ('Parser harness: every obligation is proved for ALL leaf contents (names, values, numbers) of one document STRUCTURE; the structures are the enumerated document corpus and its single-point malformations (bound stated under assumptions): bounded in structure, unbounded in content.')
     ctx.trusted += ['orjson.loads (non-JSON bytes are outside "JSON document")']
     ctx.assumptions += ['BOUND: single-point malformations of the corpus documents; replacement contents symbolic',
